@@ -9,6 +9,7 @@ import LlirModel.Drv.MdOps
 import LlirModel.Drv.ModOps
 import LlirModel.Drv.CoreOps
 import LlirModel.Drv.HistOps
+import LlirModel.Drv.FloatOps
 open Llir Llir.Drv
 
 def dispatch (op : String) (args : List String) : String :=
@@ -43,6 +44,9 @@ def dispatch (op : String) (args : List String) : String :=
   | some r => r
   | none =>
   match histOps op args with
+  | some r => r
+  | none =>
+  match floatOps op args with
   | some r => r
   | none => "unknown-op"
 
